@@ -2,7 +2,7 @@
    Bitmap unit level: Model/Bitmap.v, proofs in Proofs/BitmapProofs.v. The message-level clauses
    (bits set = elements present; an unrepresentable element makes Pack fail) are stated over the
    message model in the second half of this file. *)
-From Iso Require Import Model.Base Model.Encoding Model.Prefix Model.Bitmap Proofs.BaseLemmas Proofs.BitmapProofs.
+From Iso Require Import Model.Base Model.Encoding Model.Prefix Model.Bitmap Model.Sexp Model.Terms Proofs.BaseLemmas Proofs.BitmapProofs.
 
 (* setting bit n inside the current size makes exactly bit n read back as set (every mode, every block size) *)
 Theorem C05_set_get : forall s data n, 1 <= n <= zlen data * 8 ->
@@ -76,3 +76,16 @@ Theorem C05_unrepresentable_refuted : exists b id bm, bm_auto b = true /\ bm_is_
   set_bits b [id] bm = (bm, Ok tt).
 Proof. exists ex_spec, 17, (bm_new ex_spec). repeat split; vm_compute; reflexivity. Qed.
 Print Assumptions C05_unrepresentable_refuted.
+
+(* the default block (field/bitmap.go NewBitmap / Reset): a specification written with Length 0 is a bitmap of 8-byte
+   blocks, any other length is itself - so every bitmap specification the case language can name with a non-negative
+   length meets the hypothesis 1 <= bm_len of the theorems above, and the capacity a fixed bitmap is checked against
+   (C05_unrepresentable_fixed) is 8 * 8 bits for the default, not 0 (seeded change C05-i) *)
+Theorem C05_default_block : forall b a e p s z, Terms.parse_bmspec_args [b; a; e; p] = Some s -> Sexp.as_int b = Some z ->
+  bm_len s = (if z =? 0 then 8 else z) /\ (0 <= z -> 1 <= bm_len s).
+Proof.
+  intros b a e p s z H Hz. cbn [Terms.parse_bmspec_args] in H. rewrite Hz in H.
+  destruct (Sexp.as_bool a); [|discriminate]. destruct (Terms.parse_encoder e); [|discriminate]. destruct (Terms.parse_prefixer p); [|discriminate].
+  inversion H; subst s; cbn [bm_len]. split; [reflexivity|]. intros Hz0. destruct (z =? 0) eqn:E; lia.
+Qed.
+Print Assumptions C05_default_block.
